@@ -335,6 +335,74 @@ example : (active (fun w => w - 3600)
     = .ok [({ trigger := some (.rel 0) }, .aware 428400)] := by decide
 example : ackLe (some 3) (some 3) ∧ ackLe none (some 0) := by simp [ackLe]
 
+/-! ## Clause pass (round 10) -/
+
+/-- The decision table as ONE total function of the four optional instants, for every ordering
+    (equalities included): with an aware computed trigger `t`, `is_active` never fails and answers
+    exactly "nothing acknowledged, or snoozed strictly after the later acknowledgement, or triggered
+    strictly after it". -/
+theorem active_decision_table (a : AlarmTime) (t : Int) (ht : a.trig = .aware t) :
+    a.isActive = .ok (match optMax a.alarm.acknowledged a.lastAck with
+      | none => true
+      | some k => (match a.snooze with | some s => decide (s > k) | none => false) || decide (t > k)) := by
+  rw [isActive_eq_spec, ht]
+  unfold isActiveSpec AlarmTime.acknowledged
+  cases optMax a.alarm.acknowledged a.lastAck with
+  | none => rfl
+  | some k => cases a.snooze <;> simp
+
+/-- The boundary rows of the table: an acknowledgement AT the trigger, or a snooze that ends AT the
+    acknowledgement, leaves the alarm inactive. -/
+theorem active_equalities (a : AlarmTime) (t k : Int) (ht : a.trig = .aware t)
+    (hk : a.acknowledged = some k) :
+    (t = k → a.snooze = none → a.isActive = .ok false) ∧
+    (t ≤ k → a.snooze = some k → a.isActive = .ok false) ∧
+    (∀ s, a.snooze = some s → k < s → a.isActive = .ok true) ∧
+    (k < t → a.isActive = .ok true) := by
+  have h := active_decision_table a t ht
+  unfold AlarmTime.acknowledged at hk
+  rw [hk] at h
+  refine ⟨?_, ?_, ?_, ?_⟩
+  · intro e hs; rw [h, hs]; simp [e]
+  · intro e hs; rw [h, hs]; simp; omega
+  · intro s hs hlt; rw [h, hs]; simp; left; omega
+  · intro hlt; rw [h]; cases a.snooze <;> simp <;> omega
+
+example : ({ alarm := { acknowledged := some 10 }, trig := .aware 10, lastAck := some 10, snooze := some 10 } : AlarmTime).isActive
+    = .ok false := by decide
+
+/-- "Moving an acknowledgement later never activates an alarm", for both acknowledgements at
+    once: the alarm's own ACKNOWLEDGED and the component-level one may both move later (or appear);
+    what was inactive stays inactive, what is active afterwards was active before. -/
+theorem ack_monotone_both (a : AlarmTime) (x' y' : Option Int)
+    (hx : ackLe a.alarm.acknowledged x') (hy : ackLe a.lastAck y') (b' : Bool)
+    (h : ({ a with alarm := { a.alarm with acknowledged := x' }, lastAck := y' } : AlarmTime).isActive = .ok b') :
+    ∃ b, a.isActive = .ok b ∧ (b' = true → b = true) := by
+  refine ack_monotone a { a with alarm := { a.alarm with acknowledged := x' }, lastAck := y' } rfl rfl ?_ b' h
+  unfold AlarmTime.acknowledged
+  have h1 := optMax_mono_left a.lastAck _ _ hx
+  have h2 := optMax_mono_right x' _ _ hy
+  revert h1 h2
+  simp only
+  cases optMax a.alarm.acknowledged a.lastAck <;> cases optMax x' a.lastAck <;> cases optMax x' y' <;>
+    simp [ackLe] <;> omega
+
+example : ackLe (some 3) (some 4) ∧ ackLe none (some 1) := by simp [ackLe]
+
+/-- Snooze clause, complete: the reported trigger of an aware alarm is the later of trigger and
+    snooze; in particular a snooze not later than the trigger changes nothing. -/
+theorem snooze_reported (a : AlarmTime) (t : Int) (ht : a.trig = .aware t) :
+    a.trigger = .ok (.aware (match a.snooze with | some s => max s t | none => t)) := by
+  cases hs : a.snooze with
+  | none => rw [unsnoozed_trigger a hs, ht]
+  | some s =>
+    rw [snooze_moves a s t hs ht]
+    by_cases h : s > t
+    · simp [h]; omega
+    · simp [h]; omega
+
+example : ({ alarm := {}, trig := .aware 10, snooze := some 7 } : AlarmTime).trigger = .ok (.aware 10) := by decide
+
 /-! ## Regenerated function bodies = hand model
 
   `ICal.Gen.BodiesAlarm.AlarmTime_*` are written by tools/py2lean.py from the current source text of
